@@ -1,7 +1,7 @@
 (* C04 — property theorems only (the regenerated-table theorems are in C04/TableProofs.v, re-proved on
    every run against the table extracted from the current Go source).  The binder model is the REPAIRED
    Lambda.Call (repo_fixes C04-1 .. C04-9). *)
-From C04 Require Import Model Spec Proofs ProofsRestKey ProofsEvals Arity.
+From C04 Require Import Model Spec Proofs ProofsRestKey ProofsEvals ProofsForms Arity.
 Open Scope list_scope.
 Open Scope N_scope.
 
@@ -234,3 +234,75 @@ Theorem C04_self_check_silent : forall ds l args traced,
   list_eqb N.eqb (Corr.traced_only traced (evals_S l args)) (Corr.traced_only traced (evals_M ds args)) = true.
 Proof. exact self_check_silent. Qed.
 Print Assumptions C04_self_check_silent.
+
+(* ---- round 5: default forms that read an earlier parameter ---- *)
+(* (20) A default form is evaluated with every parameter on its left bound, also those that got their value from a
+   default form of their own.  bind_Mx models pass 2 evaluating each form (literal, or "integer value of variable
+   y plus k") in the scope built so far; for EVERY lambda list with distinct names whose forms refer to their
+   left and every argument vector, its outcome o is the binding the specification prescribes for the lambda list
+   in which each form is replaced by its value under the bindings of o itself (which, left to right, is the value
+   of the form in the environment of the parameters before it).  The hypotheses on the literal lambda list are
+   those of theorem (6): accepted by the parser, plain &rest variable, inside the guard. *)
+Theorem C04_default_form_sees_earlier_parameters : forall xs args o l,
+  NoDup (xparams xs) -> refs_back [] xs = true -> bind_Mx xs args = XO o ->
+  parse_ll (map (lit (env_of o)) xs) = Some l -> rest_plain (map (lit (env_of o)) xs) = true ->
+  in_domain (map (lit (env_of o)) xs) args = true ->
+  o = reorder (map (lit (env_of o)) xs) (bind_S l args).
+Proof. exact forms_meet_spec. Qed.
+Print Assumptions C04_default_form_sees_earlier_parameters.
+
+(* (21) the scope pass 2 ends with is a fixed point of the literal pass 2: replacing every form by its value under
+   the FINAL scope and running the literal pass 2 gives the same scope - no form ever saw a stale or missing
+   binding of a parameter on its left (all lambda lists, all start scopes) *)
+Theorem C04_pass2_forms_fixed_point : forall rho xs m b b' seen,
+  pass2x xs m b = inl b' -> refs_back seen xs = true ->
+  (forall y, In y seen -> ~ In y (xparams xs)) -> NoDup (xparams xs) ->
+  (forall y, In y seen -> int_of (rho y) = int_of (lookup b' y)) ->
+  (forall y, In y (xparams xs) -> int_of (rho y) = int_of (lookup b' y)) ->
+  pass2 (map (lit rho) xs) m b = b'.
+Proof. exact pass2x_fix. Qed.
+Print Assumptions C04_pass2_forms_fixed_point.
+
+(* (22) the code-3 self-check of Corr.check_xcase (outcome part) cannot fire under the hypotheses of (20) *)
+Theorem C04_forms_self_check_silent : forall xs args o l,
+  NoDup (xparams xs) -> refs_back [] xs = true -> bind_Mx xs args = XO o ->
+  parse_ll (map (lit (env_of o)) xs) = Some l -> rest_plain (map (lit (env_of o)) xs) = true ->
+  in_domain (map (lit (env_of o)) xs) args = true ->
+  meets_Sx xs args o = true.
+Proof. exact forms_self_check_silent. Qed.
+Print Assumptions C04_forms_self_check_silent.
+
+(* (23) non-vacuity: (&optional (a 1) (b (+ a 10)) (c (+ b 100))) with 0, 1, 2 arguments, (x &key (k (+ x 2))
+   (l (+ k 1))) with and without :k, (&optional n (m (+ n 3))) without arguments (n is nil: m is nil) *)
+Theorem C04_default_form_examples :
+  bind_Mx ex_opt [] = XO (OBound [(0, VInt 1); (1, VInt 11); (2, VInt 111)])%N /\
+  bind_Mx ex_opt [AInt 5] = XO (OBound [(0, VInt 5); (1, VInt 15); (2, VInt 115)])%N /\
+  bind_Mx ex_opt [AInt 5; AInt 6] = XO (OBound [(0, VInt 5); (1, VInt 6); (2, VInt 106)])%N /\
+  bind_Mx ex_key [AInt 3] = XO (OBound [(0, VInt 3); (1, VInt 5); (2, VInt 6)])%N /\
+  bind_Mx ex_key [AInt 3; AKw 1; AInt 1] = XO (OBound [(0, VInt 3); (1, VInt 1); (2, VInt 2)])%N /\
+  bind_Mx ex_nil [] = XO (OBound [(0, VNil); (1, VNil)])%N /\
+  forallb (fun xa => in_domain_x (fst xa) (snd xa) &&
+                     match bind_Mx (fst xa) (snd xa) with XO o => meets_Sx (fst xa) (snd xa) o | _ => false end)
+          [(ex_opt, []); (ex_opt, [AInt 5]); (ex_opt, [AInt 5; AInt 6]); (ex_key, [AInt 3]);
+           (ex_key, [AInt 3; AKw 1%N; AInt 1]); (ex_nil, [])] = true.
+Proof. exact forms_examples. Qed.
+Print Assumptions C04_default_form_examples.
+
+(* (24) the specification rejects the outcomes of a binder that evaluates a form in the scope of the argument-bound
+   parameters only (the condition unbound-variable, or nil for the dependent parameter) *)
+Theorem C04_spec_rejects_stale_default_scope :
+  meets_Sx ex_opt [] (OErr KFault) = false /\
+  meets_Sx ex_opt [] (OBound [(0, VInt 1); (1, VNil); (2, VNil)])%N = false /\
+  meets_Sx ex_key [AInt 3] (OBound [(0, VInt 3); (1, VInt 5); (2, VNil)])%N = false.
+Proof. exact forms_spec_rejects_stale_scope. Qed.
+Print Assumptions C04_spec_rejects_stale_default_scope.
+
+(* (25) outside the guard refs_back: (&key (a b) b) - the form of a names the LATER parameter b; the two-pass
+   binder shows it b's argument when :b is supplied (and signals unbound-variable otherwise), the language
+   evaluates it with the parameters on its left only *)
+Theorem C04_forward_reference_sees_later_argument_refuted :
+  bind_Mx ex_fwd [AKw 1%N; AInt 5] = XO (OBound [(0, VInt 5); (1, VInt 5)])%N /\
+  bind_Mx ex_fwd [] = XUnbound 1%N /\
+  in_domain_x ex_fwd [AKw 1%N; AInt 5] = false.
+Proof. exact forms_forward_reference_sees_later_argument. Qed.
+Print Assumptions C04_forward_reference_sees_later_argument_refuted.
